@@ -5,6 +5,7 @@ from ..model import (AnalysisError, FUNC_TYPES, U, call_attr, call_name, dotted,
                      short, walk_body, walk_local, ancestors, parent, const_str, kwarg)
 from ..util import params, find_calls, assigns_to, trace, stmt_of, has_exit, syn_dominates, lexically_before, line_loop, some_truthy
 from ..settype import Kinds, iterations, classify_sinks
+from . import cleaner_shape as shape
 
 CL = "insights.cleaner"
 SF = "insights.core.spec_factory"
@@ -50,14 +51,21 @@ def r1_hash_free(cx):
                     cx.ok(it.node, "%s iterates an unordered expression into commutative sinks only" % q, construct="%s over %s" % (it.kind, short(it.iterable, 70)))
     # fixed stage order: redact, allow-list, obfuscators
     cc = cm.func("Cleaner.clean_content", "C10.R1")
-    aps = [x for x in find_calls(cc.body, attr="append") if U(x.func.value) == "parsers"]
+    plist, pdef = shape.stage_list_name(cc)
+    cx.require(plist is not None, pdef if pdef is not None else cc, "the stage list is a fresh ordered list per call", construct=short(pdef) if pdef is not None else "(none)")
+    if plist is None:
+        return
+    aps = [x for x in find_calls(cc.body, attr="append") if U(x.func.value) == plist]
     red = [x for x in aps if "self.redact['pattern']" in U(x)]
-    alw = [x for x in aps if "allow_filter" in U(x)]
-    obf = [x for x in aps if "self.obfuscate[" in U(x) or any(isinstance(a, ast.For) and "self.obfuscate" in U(a.iter) for a in ancestors(x))]
-    ok = bool(red) and bool(alw) and bool(obf) and lexically_before(red[0], alw[0]) and lexically_before(alw[0], obf[0])
-    cx.require(ok, cc, "stage order is fixed by program order: redaction, allow-list filter, then the obfuscators", construct="parsers.append order: redact < allow_filter < obfuscators")
-    pd = [a for a in cc.body if isinstance(a, ast.Assign) and U(a.targets[0]) == "parsers"]
-    cx.require(len(pd) == 1 and U(pd[0].value) in ("list()", "[]"), pd[0] if pd else cc, "the stage list is a fresh ordered list per call", construct=short(pd[0]) if pd else "(none)")
+    alw = [x for x in aps if "allow_filter" in U(x) or "AllowFilter" in U(x)]
+    ent = shape.obfuscator_entries(cc, plist)
+    ok = bool(red) and bool(alw) and ent is not None and lexically_before(red[0], alw[0]) and lexically_before(alw[0], ent[0])
+    cx.require(ok, cc, "stage order is fixed by program order: redaction, allow-list filter, then the obfuscators", construct="%s order: redact < allow_filter < obfuscators" % plist)
+    if ent is not None:
+        node, it, atoms, elt, tv, exits = ent
+        ordered, over_all, minus, rest = shape.name_set_meaning(it, cc, tv, atoms)
+        cx.require(ordered, node, "the obfuscators are applied in one fixed order: the names are iterated through sorted() (no key function, which could leave ties in hash order)",
+                   construct="for %s in %s" % (tv, short(it, 100)))
 
 
 def r2_one_to_one(cx):
@@ -73,28 +81,37 @@ def r2_one_to_one(cx):
     order, cur = line_loop(lp, lines)
     desc, asc = order == "desc", order == "asc"
     cx.require(desc or asc, lp, "the loop visits every line exactly once, monotonically", construct="for %s in %s" % (U(lp.target), U(lp.iter)))
-    cl = [a for a in walk_body(lp.body) if isinstance(a, ast.Assign) and isinstance(a.value, ast.Call) and call_name(a.value) == "_clean_line"]
-    ok = len(cl) == 1 and U(cl[0].value.args[0]) == cur
+    plist, _pd = shape.stage_list_name(cc)
+    hf, hcalls, _pp, hok = shape.clean_line_helper(cm, cc, plist) if plist is not None else (None, [], None, False)
+    cl = [a for a in walk_body(lp.body) if isinstance(a, ast.Assign) and isinstance(a.value, ast.Call) and any(a.value is c for c in hcalls)]
+    ok = len(cl) == 1 and U(cl[0].value.args[0]) == cur and hok
     cx.require(ok, cl[0] if cl else lp, "each output line derives from exactly the input line of this iteration", construct=short(cl[0]) if cl else "(none)")
     aps = [x for x in find_calls(lp.body, attr="append") if U(x.func.value) == "result"]
     ok = len(aps) == 1 and bool(cl) and U(aps[0].args[0]) == U(cl[0].targets[0]) and enclosing(aps[0], (ast.For, ast.While)) is lp
     cx.require(ok, aps[0] if aps else lp, "at most one result is appended per input index", construct=short(aps[0]) if aps else "(none)")
-    revs = [x for x in find_calls(cc.body, attr="reverse") if U(x.func.value) == "result"]
+    how, rnode = shape.reversal(cc, "result")
     rets = [r for r in walk_body(cc.body) if isinstance(r, ast.Return) and U(r.value) == "result"]
     if desc:
-        ok = len(revs) == 1 and len(rets) == 1 and syn_dominates(stmt_of(revs[0]), rets[0]) and enclosing(revs[0], (ast.For, ast.While)) is None and syn_dominates(lp, revs[0])
-        cx.require(ok, revs[0] if revs else cc, "lines are processed bottom-up and the result is reversed exactly once on the path that returns it",
-                   construct="result.reverse(); return result" if revs else "(no result.reverse())")
+        if how == "inplace":
+            ok = len(rets) == 1 and syn_dominates(stmt_of(rnode), rets[0]) and enclosing(rnode, (ast.For, ast.While)) is None and syn_dominates(lp, rnode)
+        elif how == "copy":
+            ok = not rets and enclosing(rnode, (ast.For, ast.While)) is None and syn_dominates(lp, rnode)
+        else:
+            ok = False
+        cx.require(ok, rnode if rnode is not None else cc, "lines are processed bottom-up and the result is reversed exactly once on the path that returns it",
+                   construct=short(rnode) if rnode is not None else "(no result.reverse())")
     else:
-        cx.require(not revs, revs[0] if revs else cc, "ascending loop: the result is returned without reversal", construct="return result")
+        cx.require(how is None, rnode if rnode is not None else cc, "ascending loop: the result is returned without reversal", construct="return result")
 
 
 def r3_empty(cx):
     cx.rule("C10.R3", "a spec left with no non-blank line is dropped instead of stored empty", floor=5)
     cm = cx.repo.module(CL)
     cc = cm.func("Cleaner.clean_content", "C10.R3")
-    rets = [r for r in cc.body if isinstance(r, ast.Return)]
-    res_ret = [r for r in walk_body(cc.body) if isinstance(r, ast.Return) and U(r.value) == "result"]
+    lines_p = params(cc)[1]
+    plist, _pd = shape.stage_list_name(cc)
+    hf, hcalls, _pp, hok = shape.clean_line_helper(cm, cc, plist) if plist is not None else (None, [], None, False)
+    res_ret = [r for r in walk_body(cc.body) if isinstance(r, ast.Return) and r.value is not None and U(r.value) in ("result", "result[::-1]", "list(reversed(result))")]
     empties = [r for r in walk_body(cc.body) if isinstance(r, ast.Return) and U(r.value) == "[]"]
     ok = bool(empties) and bool(res_ret)
     if ok:
@@ -106,10 +123,9 @@ def r3_empty(cx):
     cx.require(ok, res_ret[0] if res_ret else cc, "the cleaned list is returned only when some line is truthy; otherwise [] is returned",
                construct="if result and any(l for l in result): ... return result ; return []")
     for r in [x for x in walk_body(cc.body) if isinstance(x, ast.Return) and enclosing_function(x) is cc]:
-        t = U(r.value)
-        if t in ("result", "[]"):
+        if r in res_ret or r in empties:
             continue
-        if t == "_clean_line(%s)" % params(cc)[1] and ("isinstance(%s, list)" % params(cc)[1], False) in guard_texts(r):
+        if isinstance(r.value, ast.Call) and any(r.value is c for c in hcalls) and U(r.value.args[0]) == lines_p and ("isinstance(%s, list)" % lines_p, False) in guard_texts(r) and hok:
             cx.ok(r, "a single string is cleaned as one line", construct=short(r))
             continue
         cx.bad(r, "every list returned by clean_content went through the line loop and the all-blank collapse (an early return of the input bypasses both)", construct=short(r) + " guarded by %s" % sorted(guard_texts(r)))
